@@ -218,10 +218,14 @@ package search
 //@   ensures [board]  gbs == old(gbs)
 //@   # what is reported is what would be returned: the first (and second) move of the reported variation
 //@   at-call Fprintf@2 requires [reported] implies(s.pv.depth[0] >= 1, move == s.pv.moves[0]) && implies(s.pv.depth[0] >= 2, ponder == s.pv.moves[1]) && implies(s.pv.depth[0] == 1, ponder == 0)
+//@   # reported depths strictly increase: every report carries the number of the current iteration of the
+//@   # deepening loop (ghost iteration counter), and an iteration reports at most once at each site
+//@   at-call Fprintf@1 requires [depthA] int(idD) == count(1)
+//@   at-call Fprintf@2 requires [depthB] int(idD) == count(1)
 //@   use lineCons(gbs, arr(s.pv.moves), 0, int(s.pv.depth[0])) at call active@1
 //@   use lineCons(mkS(gbs, uint16(s.pv.moves[0])), arr(s.pv.moves), 1, int(s.pv.depth[0]) - 1) at call active@1
 //@   modifies b.*, gbs, s.aborted, s.hstack.*, s.pv.*, s.ms.*, s.tt.data.*, s.ranker.history.*, s.ranker.captHist.*, s.ranker.continuations[0].*, s.ranker.continuations[1].*, opts.Counters.*, opts.PonderHit
-//@   loop 1: invariant gbs == old(gbs) && s.hstack.sp == old(s.hstack.sp) && len(s.ms.frames) == old(len(s.ms.frames)) && moveOK(move, ponder)
+//@   loop 1: invariant gbs == old(gbs) && s.hstack.sp == old(s.hstack.sp) && len(s.ms.frames) == old(len(s.ms.frames)) && moveOK(move, ponder) && int(idD) == count(1) && 0 <= idD
 //@   loop 1: modifies b.*, gbs, s.aborted, s.hstack.*, s.pv.*, s.ms.*, s.tt.data.*, s.ranker.history.*, s.ranker.captHist.*, s.ranker.continuations[0].*, s.ranker.continuations[1].*, opts.Counters.*, opts.PonderHit, move, ponder, score
 //@   loop 2: invariant gbs == old(gbs) && s.hstack.sp == old(s.hstack.sp) && len(s.ms.frames) == old(len(s.ms.frames)) && moveOK(move, ponder) && implies(awOk, rowOK(s, 0) && rowLen(s, 0))
 //@   loop 2: modifies b.*, gbs, s.aborted, s.hstack.*, s.pv.*, s.ms.*, s.tt.data.*, s.ranker.history.*, s.ranker.captHist.*, s.ranker.continuations[0].*, s.ranker.continuations[1].*, opts.Counters.*, opts.PonderHit, move, ponder, score
